@@ -576,7 +576,9 @@ def inject(ctx):
     ctx.ob(['C07', 'C05', 'C13'], 'R-SLP', 'C07|taken-names-start-with-resolved-vftable', ok_used,
            'the set of method names already taken starts with the function names of the type\'s resolved vftable (own block or inherited), the same value that becomes TypeDefinition.vftable: %s' % det_u, where)
     # calls of the add_functions closure
-    calls = [c for c in tdb.calls(lambda r: r['block'] in body and r['path'] in P.fns and P.fns[r['path']].kind == 'Closure')]
+    # (a closure of build, or a private function that does the same job with the captured state as parameters)
+    calls = [c for c in tdb.calls(lambda r: r['block'] in body and r['path'] in P.fns and (P.fns[r['path']].kind == 'Closure' or (
+        not P.fns[r['path']].public and any(c_['path'] and c_['path'].endswith('FunctionBody::field') for c_ in P.fns[r['path']].calls()))))]
     addf = {}
     for c in calls:
         addf.setdefault(c['path'], []).append(c)
@@ -647,7 +649,20 @@ def inject(ctx):
     if len(fb) == 1:
         e = cf.expr_of_call(fb[0]['term'])
         a0, a1 = strip(e[2][0]), strip(e[2][1])
-        okb = a0[0] == 'upvar' and (a1[0] in ('var', 'field') or is_call(a1, 'clone'))
+        while a0[0] == 'call' and a0[2] and re.search(r'(::clone|::to_string|::to_owned|::into|::from|::deref|::as_str|::borrow)$', a0[1]):
+            a0 = strip(a0[2][0])
+        okb = (a0[0] == 'upvar' or (a0[0] == 'arg' and cf.kind != 'Closure')) and (a1[0] in ('var', 'field') or is_call(a1, 'clone'))
+        # ... and that captured value / parameter is the base field's name: component 0 of get_region_name_and_type_definition(..)
+        bases_ = []
+        for c_ in cs:
+            ce = tdb.expr_of_call(c_['term'])
+            if cf.kind == 'Closure':
+                cv = strip(expand(tdb, ce[2][0]))
+                caps_ = cv[2] if cv[0] == 'closure' and len(cv) > 2 else []
+                bases_.append(strip(expand(tdb, caps_[a0[1]])) if a0[0] == 'upvar' and a0[1] < len(caps_) else None)
+            else:
+                bases_.append(strip(expand(tdb, ce[2][a0[1] - 1])) if a0[0] == 'arg' and 1 <= a0[1] <= len(ce[2]) else None)
+        okb = okb and all(b_ is not None and any(isinstance(y, tuple) and y[0] == 'field' and y[2] == '0' and find_calls(y[1], 'get_region_name_and_type_definition') for y in walk(b_)) for b_ in bases_)
         # second argument is the function's own (original) name
         okb = okb and original_name_ok(cf, fb[0]['term']['args'][1])
     ren = [g for s in cf.switches() for g in [s] if is_call(s['cond'], 'contains')]
